@@ -1,5 +1,84 @@
-"""Positive controls (fixtures crate) — filled in later; see fixtures/."""
+"""Positive / negative controls: the same driver and engines analyse /verif/fixtures, a crate of
+deliberately wrong (`bad_*`) and right (`good_*`) code.  A template that does not fire on its `bad_`
+control, or fires on the `good_` twin, marks the check as broken (exit 2) — this is what keeps
+zero-expected-count rules honest (DESIGN.md §2.4)."""
+import facts
+import program
+import locks
+import order
+import atom
+import decode
+from order import M
+
+ENGINES = {
+    "C05": ("order",), "C09": ("order", "locks"), "C10": ("order", "locks"), "C11": ("locks",),
+    "C12": ("order", "locks"), "C13": ("atom",), "C14": ("atom", "order"), "C16": ("atom", "decode", "order"),
+    "C17": ("decode",), "C18": ("order",), "C19": ("order",), "C20": ("order", "locks"),
+}
+
+_cache = {}
+
+
+def _ctx():
+    if "P" not in _cache:
+        d = facts.ensure_fixture_facts()
+        crates = facts.load(d, crates=("verif_fixtures",))
+        P = program.Program(crates)
+        table = locks.LockTable({
+            "classes": [{"class": "FA", "payload": "^verif_fixtures::PA$", "doc_name": "fa"},
+                        {"class": "FB", "payload": "^verif_fixtures::PB$", "doc_name": "fb"},
+                        {"class": "FM", "payload": "^u8$"}],
+            "reference_order_prefix": [], "reference_order_suffix": ["FM"], "raw_lock_bodies": {},
+            "acquisition_floors": {}})
+        L = locks.LockEngine(P, table=table)
+        L.order_adt = "verif_fixtures::Fix"
+        L.solve()
+        _cache.update(P=P, L=L, O=order.Order(P, L))
+    return _cache["P"], _cache["L"], _cache["O"]
 
 
 def run(pid, chk):
-    return
+    engines = ENGINES.get(pid, ())
+    if not engines:
+        return
+    P, L, O = _ctx()
+    fx = "verif_fixtures::"
+    if "locks" in engines:
+        groups, info = L.verdict({})
+        keys = " ".join(g["key"] for g in groups)
+        chk.control("locks: order inversion in Fix::bad_order is reported", fx + "Fix::bad_order|FB:R" in keys)
+        chk.control("locks: recursive read through a callback (Fix::bad_recursive_read) is reported",
+                    "callback|" + fx + "Fix::bad_recursive_read" in keys)
+        chk.control("locks: silent on Fix::good_order / Fix::good_callback",
+                    "good_order" not in keys and "good_callback" not in keys)
+    if "order" in engines:
+        data, meta = M(fx + "data_sync"), M(fx + "meta_sync")
+        chk.control("order: precedes fires on bad_sync_order", bool(O.precedes(P.bodies[fx + "bad_sync_order"], data, meta)))
+        chk.control("order: precedes silent on good_sync_order", not O.precedes(P.bodies[fx + "good_sync_order"], data, meta))
+        w, mk = M(fx + "raw_write"), M(fx + "mark")
+        chk.control("order: followed_by fires on bad_followed", bool(O.followed_by(P.bodies[fx + "bad_followed"], w, mk, "ok")))
+        chk.control("order: followed_by silent on good_followed (error exit is vacuous)",
+                    not O.followed_by(P.bodies[fx + "good_followed"], w, mk, "ok"))
+        for name, want in (("bad_claim", True), ("good_claim", False)):
+            B = P.bodies[fx + name]
+            st = O.typestate(B, True, O.sites(B, M(fx + "claim")), O.sites(B, M(fx + "release")))
+            bad = [b for b in O.sites(B, M(fx + "use_space")) if not st[b]]
+            chk.control("order: typestate %s on %s" % ("fires" if want else "silent", name), bool(bad) == want)
+        bad, n = O.only_callers(mk, {fx + "only_from_here", fx + "good_followed", fx + "bad_followed"})
+        chk.control("order: only_callers reports the intruder", any(b[0] == fx + "intruder" for b in bad))
+    if "atom" in engines:
+        A = atom.Atom(P, L).solve()
+        chk.control("atom: Fix::bad_remove returns Still after a mutation", "Still" in A.DIRTY[fx + "Fix::bad_remove"])
+        chk.control("atom: Fix::good_remove is clean", not A.DIRTY[fx + "Fix::good_remove"])
+        chk.control("atom: `?` after a mutation (Fix::bad_question_mark) is dirty",
+                    "Short" in A.DIRTY[fx + "Fix::bad_question_mark"])
+        chk.control("atom: callee's own mutation counts on the Continue edge only (Fix::good_question_mark clean)",
+                    not A.DIRTY[fx + "Fix::good_question_mark"])
+    if "decode" in engines:
+        D = decode.Decode(P)
+        bad = [s for s in D.analyze(P.bodies[fx + "bad_decode"])["sites"] if not s["ok"]]
+        kinds = {s["kind"] for s in bad}
+        chk.control("decode: unguarded range index in bad_decode is reported", "range-index" in kinds)
+        chk.control("decode: input-sized allocation in bad_decode is reported", "alloc:with_capacity" in kinds)
+        good = [s for s in D.analyze(P.bodies[fx + "good_decode"])["sites"] if not s["ok"]]
+        chk.control("decode: good_decode fully discharged", not good)
